@@ -17,7 +17,7 @@ pub fn start() -> impl Strategy<Value = Start> {
 }
 
 pub fn ring_cfg(max_sq_log2: u8) -> impl Strategy<Value = RingCfg> {
-    (0..=max_sq_log2, proptest::option::of(0u8..=6), start(), start(), any::<bool>()).prop_map(|(sq_log2, cq_log2, sq_start, cq_start, alt_layout)| RingCfg {
+    (0..=max_sq_log2, proptest::option::of(0u8..=6), start(), start(), any::<bool>(), proptest::bool::weighted(0.2)).prop_map(|(sq_log2, cq_log2, sq_start, cq_start, alt_layout, defer_taskrun)| RingCfg {
         sq_log2,
         cq_log2,
         sq_start,
@@ -25,6 +25,7 @@ pub fn ring_cfg(max_sq_log2: u8) -> impl Strategy<Value = RingCfg> {
         sqpoll: false,
         direct_slots: 0,
         alt_layout,
+        defer_taskrun,
     })
 }
 
@@ -98,6 +99,6 @@ pub fn step(kind: BoxedStrategy<OpKind>, max_faults: usize, drops: u32) -> impl 
 }
 
 pub fn teardown() -> impl Strategy<Value = Teardown> {
-    (proptest::collection::vec(any::<u16>(), 1..24), proptest::collection::vec(proptest::bool::weighted(0.2), 1..8), 0u8..3, proptest::option::weighted(0.5, (0u8..=3, 0u8..4)), any::<bool>())
-        .prop_map(|(priorities, on_thread, extra_sq, pool, wake_after)| Teardown { priorities, on_thread, extra_sq, pool, wake_after })
+    (proptest::collection::vec(any::<u16>(), 1..24), proptest::collection::vec(proptest::bool::weighted(0.2), 1..8), 0u8..3, proptest::option::weighted(0.5, (0u8..=3, 0u8..4)), any::<bool>(), any::<bool>())
+        .prop_map(|(priorities, on_thread, extra_sq, pool, wake_after, inline_on_flush)| Teardown { priorities, on_thread, extra_sq, pool, wake_after, inline_on_flush })
 }
